@@ -402,7 +402,13 @@ def run(ctx):
                 odd = ("a %s naming a %s is carried out without being compared with %s "
                        "although %s is not known to be unset" % (
                            h, "mailbox" if h == _close_h else "nameplate", a, a))
-            if present is False and refused and a_none is not True:
+            # (a refusal for another reason -- the value's type, say -- is not
+            # about what is remembered: only refusals decided by a test of the
+            # connection's state count)
+            last_raise = [e for e in evs if e["k"] == "raise" and e["cls"] == "Error"]
+            by_state = bool(last_raise) and bool(last_raise[0]["pc"]) and \
+                _flag_attr(last_raise[0]["pc"][-1][0]) is not None
+            if present is False and refused and by_state and a_none is not True:
                 odd = ("a bare %s is refused although %s (what the connection %s) is not "
                        "known to be unset" % (h, a, "opened" if h == _close_h else "claimed"))
         ctx.ob("R17.names", "%s: the None tests that guard the %s name are on %s" % (
